@@ -26,10 +26,12 @@ def base_record(seed=0):
 
 def materialise(inp, x, y):
     """Build the caller's object for a model scenario.  Returns (obj, list of underlying arrays to watch)."""
-    dt = {"f64": np.float64, "f32": np.float32, "i64": np.int64}[inp["dtype"]]
+    dt = {"f64": np.float64, "f32": np.float32, "i64": np.int64, "f128": np.longdouble, "obj": object}[inp["dtype"]]
     if inp["dtype"] == "i64":
         x, y = np.round(x * 4), np.round(y * 4)
-    bad = {"nan": np.nan, "posinf": np.inf, "neginf": -np.inf}[inp["kind"]]
+    bad = {"nan": np.nan, "posinf": np.inf, "neginf": -np.inf, "huge": np.longdouble("1e400")}[inp["kind"]]
+    if inp["dtype"] == "obj":
+        bad = None                                   # a gap in a list of readings
     pos = {1: 0, 4: N - 1}
     chans = [x.astype(dt), y.astype(dt)]
     for (c, p) in inp["bad"]:
@@ -68,7 +70,7 @@ def materialise(inp, x, y):
 
 
 def zero_filled(inp, x, y):
-    dt = {"f64": np.float64, "f32": np.float32, "i64": np.int64}[inp["dtype"]]
+    dt = {"f64": np.float64, "f32": np.float32, "i64": np.int64, "f128": np.longdouble, "obj": object}[inp["dtype"]]
     if inp["dtype"] == "i64":
         x, y = np.round(x * 4), np.round(y * 4)
     chans = [x.astype(dt).astype(np.float64), y.astype(dt).astype(np.float64)]
